@@ -554,9 +554,10 @@ def consumer(ctx, d):
         ctx.mark("TIE-BROKEN", {"consumer": f"cannot import darsia.measure.wasserstein: {e}"})
         return
     rng = np.random.default_rng(ctx.rng.randrange(2**31))
-    shapes = {1: [(4,)], 2: [(3, 3), (3, 2)], 3: [(3, 3, 3)]}
+    # single-voxel axes (2-D data embedded in 3-D, strips) are forced: there the flux has no component along that axis
+    shapes = {1: [(4,), (1,)], 2: [(3, 3), (3, 2), (1, 4), (3, 1)], 3: [(3, 3, 3), (3, 4, 1), (1, 3, 1)]}
     if ctx.big:
-        shapes = {1: [(4,), (1,), (7,)], 2: [(3, 2), (1, 4), (4, 4)], 3: [(2, 3, 2), (1, 2, 3), (3, 3, 4)]}
+        shapes = {1: [(4,), (1,), (7,)], 2: [(3, 2), (1, 4), (4, 4), (5, 1), (1, 1)], 3: [(2, 3, 2), (1, 2, 3), (3, 3, 4), (3, 1, 3), (1, 1, 4), (1, 1, 1)]}
     reqs = [f"l1rule {m} {dim}" for m in L1_LEAN for dim in DIMS]
     rules = dict(zip(reqs, ctx.model(reqs)))
     worst, n, diffs = 0.0, 0, []
@@ -590,13 +591,14 @@ def consumer(ctx, d):
                              {"call": ["consumer", mode, dim, list(shape)], "flux": flux.tolist(), "cell": c, "density": float(td.ravel()[c]), "norm_mean_flux": float(centre.ravel()[c])})
                 # a flux that is constant inside a cell (same value on all faces of an axis; interior cells): the weights sum to 1,
                 # so the density must be exactly the norm of that flux
-                if all(s_ >= 3 for s_ in shape):
+                if all(s_ >= 3 or s_ == 1 for s_ in shape) and any(s_ >= 3 for s_ in shape):
                     fa = rng.integers(-8, 9, dim).astype(float) / 4.0
                     cflux = np.zeros(grid.num_faces)
                     for a in range(dim):
                         cflux[grid.faces[a]] = fa[a]
                     tdc = call(solver.transport_density, cflux.copy(), False, False)
-                    inner = tuple(slice(1, -1) for _ in range(dim))
+                    inner = tuple(slice(1, -1) if s_ >= 3 else slice(None) for s_ in shape)
+                    fa = np.array([fa[a] if shape[a] >= 3 else 0.0 for a in range(dim)])  # no faces across a single-voxel axis
                     if isinstance(tdc, Raised) or not np.allclose(np.asarray(tdc)[inner], np.linalg.norm(fa), rtol=0, atol=1e-13 * max(1.0, np.linalg.norm(fa))):
                         ctx.fail(f"C15:transport_density({mode},dim={dim}):constant-flux", "a flux that is constant in a cell must give density = its norm (weights sum to 1)",
                                  {"call": ["consumer", mode, dim, list(shape)], "face_flux_per_axis": fa.tolist(), "required": float(np.linalg.norm(fa)),
@@ -736,7 +738,8 @@ def replay(data):
         elif need is not None:
             bad = not np.all(need <= td + 1e-12 * max(1.0, float(np.max(td))))
         else:
-            inner = tuple(slice(1, -1) for _ in range(dim))
+            inner = tuple(slice(1, -1) if s_ >= 3 else slice(None) for s_ in shape)
+            fa = np.array([fa[a] if shape[a] >= 3 else 0.0 for a in range(dim)])
             bad = not np.allclose(np.asarray(td)[inner], np.linalg.norm(fa), rtol=0, atol=1e-13 * max(1.0, np.linalg.norm(fa)))
         print(json.dumps({"call": rp["call"], "clause": clause, "density": repr(td) if isinstance(td, Raised) else np.asarray(td).ravel().tolist(),
                           "norm_centre_flux": None if need is None else need.ravel().tolist(), "still_failing": bool(bad)}, indent=1))
